@@ -846,8 +846,25 @@ Definition leave_goal (r : region) : goal :=
 Definition unlike_model (c : ccase) : string :=
   if bout_eqb (model_out c) (case_out c) then "" else ":plan-unlike-model".
 
+(* Step-level monitor: the implementation's CheckSafety / IsFinish answers (recorded by the driver on the region before
+   and after every step) against what the property asks of them (spec_safe / spec_done of model/C08_Steps.v).
+   rb = the region before the step, as the implementation had it. *)
+Fixpoint step_monitor (rb : region) (ss : list step) (tr : list tobs) : option string :=
+  match ss, tr with
+  | s :: sr, t :: trr =>
+      let wf := nodup_stores (peers rb) && step_ids_nonzero s in
+      if wf && t_safe_raw t && negb (spec_safe rb s)
+      then Some (sapp "C08:step:unsafe-step-passes-check-safety:" (step_name s))
+      else if wf && t_fin_before t && negb (spec_done rb s)
+      then Some (sapp "C08:step:finished-without-effect:" (step_name s))
+      else if nodup_stores (peers (t_region t)) && step_ids_nonzero s && t_fin_after t && negb (spec_done (t_region t) s)
+      then Some (sapp "C08:step:finished-without-effect:" (step_name s))
+      else step_monitor (t_region t) sr trr
+  | _, _ => None
+  end.
+
 (* Monitor: the property evaluated on the plan the IMPLEMENTATION produced. *)
-Definition monitor (c : ccase) : option string :=
+Definition plan_monitor (c : ccase) : option string :=
   match c with
   | CBuild i (Built ss _ _) _ =>
       match prepared i with
@@ -863,6 +880,15 @@ Definition monitor (c : ccase) : option string :=
       | None => None
       end
   | _ => None
+  end.
+
+Definition monitor (c : ccase) : option string :=
+  match plan_monitor c with
+  | Some v => Some v
+  | None => match case_out c with
+            | Built ss _ _ => step_monitor (case_region c) ss (case_trace c)
+            | _ => None
+            end
   end.
 
 Fixpoint monitor_fails_from (n : nat) (cs : list ccase) : list (nat * string) :=
